@@ -22,9 +22,10 @@ Inductive op (T : Type) :=
 | OSetBiso (v : T)                     (* a.Bisoequiv = v  *)
 | OSetLat (l : option (latdata T))     (* a.lattice = l  (plain attribute; also models an in-place change of the lattice) *)
 | OReadU                               (* reading a.U rewrites the storage when the flag is off *)
-| OMsdLat (v : gvec T).                (* a.msdLat(v) goes through the a.U getter *)
+| OMsdLat (v : gvec T)                 (* a.msdLat(v) goes through the a.U getter *)
+| OCopy.                               (* a = a.__copy__()  /  copy.copy(a)  /  Atom(a) *)
 Arguments OSetAniso {T}. Arguments OSetU {T}. Arguments OSetUij {T}. Arguments OSetBij {T}. Arguments OSetUiso {T}.
-Arguments OSetBiso {T}. Arguments OSetLat {T}. Arguments OReadU {T}. Arguments OMsdLat {T}.
+Arguments OSetBiso {T}. Arguments OSetLat {T}. Arguments OReadU {T}. Arguments OMsdLat {T}. Arguments OCopy {T}.
 
 Section Machine.
 Context {T : Type} (C : cctx T).
@@ -53,12 +54,28 @@ Definition step (s : astate T) (o : op T) : astate T :=
   | OSetLat l => set_stlat s l
   | OReadU => fst (get_U C s)
   | OMsdLat v => fst (msdLat C s v)
+  | OCopy => copy_Atom C s
   end.
 
 Definition run (s : astate T) (ops : list (op T)) : astate T := fold_left step ops s.
 
 (* Atom(): zero tensor, flag off, no lattice *)
 Definition init : astate T := AS (gzero (cO C)) false None.
+
+(* The constructor as documented: "Cannot use both U and Uisoequiv"; otherwise a new atom (or the copy of the Atom passed
+   as atype) receives, IN THIS ORDER: U (flag on, then the tensor), Uisoequiv (flag off, then the value), lattice, and
+   last the explicit anisotropy flag ("lattice needs to be set before anisotropy").  Proofs/C09_Ctor.v shows that the
+   generated init_Atom (argument blocks in the order of the current source) is exactly this. *)
+Definition opt_ops {A} (o : option A) (f : A -> list (op T)) : list (op T) := match o with Some x => f x | None => [] end.
+Definition ctor_ops (anisotropy : option bool) (U : option (gmat T)) (Uisoequiv : option T) (lattice : option (latdata T)) : list (op T) :=
+  opt_ops U (fun m => [OSetAniso true; OSetU m]) ++ opt_ops Uisoequiv (fun v => [OSetAniso false; OSetUiso v]) ++
+  opt_ops lattice (fun l => [OSetLat (Some l)]) ++ opt_ops anisotropy (fun b => [OSetAniso b]).
+Definition ctor_spec (atype : option (astate T)) (anisotropy : option bool) (U : option (gmat T)) (Uisoequiv : option T)
+           (lattice : option (latdata T)) : option (astate T) :=
+  match U, Uisoequiv with
+  | Some _, Some _ => None                                      (* ValueError *)
+  | _, _ => Some (run (match atype with Some src => step src OCopy | None => init end) (ctor_ops anisotropy U Uisoequiv lattice))
+  end.
 
 (* the readable quantities (pure views: reading through them leaves the state alone) *)
 Definition rd_aniso (s : astate T) : bool := get_anisotropy C s.
